@@ -143,12 +143,22 @@ class Ctx:
             cmd += ["-coverage", "1"]
         cmd += list(extra) + [module + ".tla"]
         t = time.time()
+        proc = subprocess.Popen(cmd, cwd=wd, stdout=subprocess.PIPE, stderr=subprocess.STDOUT, text=True, start_new_session=True)
         try:
-            p = subprocess.run(cmd, cwd=wd, capture_output=True, text=True, timeout=timeout)
+            so, _ = proc.communicate(timeout=timeout)
         except subprocess.TimeoutExpired:
-            subprocess.run(["pkill", "-f", "tlc2.TL[C]"], capture_output=True)
+            try:
+                os.killpg(proc.pid, 9)      # only this TLC (its own process group), never others
+            except OSError:
+                pass
+            proc.wait()
             raise Inconclusive("TLC timed out on %s/%s" % (module, cfg))
-        out = p.stdout + p.stderr
+
+        class _P:
+            pass
+        p = _P()
+        p.returncode = proc.returncode
+        out = so or ""
         res = {"out": out, "rc": p.returncode, "wall": time.time() - t, "wd": wd}
         m = re.search(r"(\d+) states generated, (\d+) distinct states found", out)
         if m:
